@@ -408,20 +408,25 @@ class Function:
         (parameters become renamed locals, `return e` becomes an assignment to a fresh temporary that replaces the call).
         Rules that analyse one public function path by path use this view, so that extracting part of the function into a
         static helper - or inlining one - does not change what they see."""
+        base = getattr(self, "inlined_from", None) or self
         key = (depth, max_blocks, tuple(sorted(only)) if only else None, tuple(sorted(skip)))
-        cache = self.__dict__.setdefault("_inl", {})
+        cache = base.__dict__.setdefault("_inl", {})
         if key in cache:
             return cache[key]
         import copy
-        d = copy.deepcopy(self.d)
+        d = copy.deepcopy(base.d)
         counter = [0]
         for _round in range(depth):
-            if not _inline_round(d, self.unit, self.name, counter, max_blocks, only, skip):
+            if not _inline_round(d, base.unit, base.name, counter, max_blocks, only, skip):
                 break
-        f = Function(d, self.unit)
-        f.inlined_from = self
+        f = Function(d, base.unit)
+        f.inlined_from = base
         cache[key] = f
         return f
+
+    @property
+    def raw(self):
+        return getattr(self, "inlined_from", None) or self
 
     # -- iteration -------------------------------------------------------
     def reachable_blocks(self):
@@ -498,6 +503,18 @@ class Function:
                 if isinstance(n.get(kk), dict):
                     stack.append(n[kk])
         return out
+
+    def resolve(self, expr, _depth=0):
+        """Look through casts and through locals that have exactly one definition (`T *p = (T *) arg;`, the result temporary of
+        an inlined helper): the expression whose value `expr` carries."""
+        e = strip_casts(expr)
+        if e is None or _depth > 8 or e["k"] != "ref" or e.get("decl") != "local":
+            return e
+        self.origins(e)       # builds the definition table
+        ds = self.__dict__.get("_defs", {}).get(e["name"], [])
+        if len(ds) != 1:
+            return e
+        return self.resolve(ds[0], _depth + 1)
 
     def value_aliases(self, name):
         """`name` plus every local whose only definition is a (cast of a) copy of it: `T *self = arg;`"""
@@ -751,12 +768,17 @@ def _inline_round(d, unit, self_name, counter, max_blocks, only, skip):
             pre = []
             direct = {}
             addr_of = {}
+            const_of = {}
             for p_, a in zip(cd.get("params", []), call["args"]):
                 av = a
                 while av is not None and av["k"] == "cast" and av.get("ck") in ("NoOp", "LValueToRValue", "BitCast"):
                     av = av["e"]
                 if av is not None and av["k"] == "ref" and av.get("decl") in ("local", "param") and p_["name"] not in assigned and not av.get("x"):
                     direct[p_["name"]] = (av["name"], av.get("decl"))
+                    continue
+                # a compile-time constant handed to a parameter the callee never reassigns: the parameter is that constant
+                if a is not None and cv(a) is not None and p_["name"] not in assigned and not a.get("x"):
+                    const_of[p_["name"]] = a
                     continue
                 # `&var` handed to an out-parameter the callee never reassigns: `*param` is `var` itself
                 if av is not None and av["k"] == "un" and av["op"] == "&" and p_["name"] not in assigned and not av.get("x"):
@@ -775,6 +797,19 @@ def _inline_round(d, unit, self_name, counter, max_blocks, only, skip):
                             if n["k"] == "ref" and n.get("decl") == "param" and n["name"] in direct:
                                 n["name"], n["decl"] = direct[n["name"]]
                 names -= set(direct)
+            if const_of:
+                import copy as _cp
+                for cb in cd["blocks"]:
+                    for s_ in cb["stmts"]:
+                        for n in _walk_all(s_):
+                            if n["k"] == "ref" and n.get("decl") == "param" and n["name"] in const_of:
+                                src = _cp.deepcopy(const_of[n["name"]])
+                                keep_x = n.get("x")
+                                n.clear()
+                                n.update(src)
+                                if keep_x:
+                                    n["x"] = 1
+                names -= set(const_of)
             if addr_of:
                 def deref_subst(e):
                     if isinstance(e, dict):
@@ -813,6 +848,7 @@ def _inline_round(d, unit, self_name, counter, max_blocks, only, skip):
             b.pop("term", None)
             for cb in cd["blocks"]:
                 cb["id"] = idmap[cb["id"]]
+                cb["succs"] = [s_ for s_ in cb["succs"] if s_["to"] in idmap and not s_.get("unreachable")]
                 for s_ in cb["succs"]:
                     s_["to"] = idmap[s_["to"]]
                 new_stmts = []
@@ -921,7 +957,7 @@ class Unit:
         f = self.functions.get(name)
         if f is None:
             raise AnalysisBroken("anchor function %s not found in %s" % (name, self.relpath))
-        if not raw and os.environ.get("PLINT_INLINE_ALL"):
+        if not raw and not os.environ.get("PLINT_NO_INLINE"):
             return f.inlined()
         return f
 
